@@ -33,6 +33,9 @@ inductive LeafCall where
   | view (shape : Shape) (n : Nat)
   /-- `tensor.reshape((*shape, *tensor.shape[batch_dims:]))` — _td.py:reshape -/
   | reshape (shape : Shape) (n : Nat)
+  /-- _td.py:_squeeze(dim=None) (after the nested-names fix): a tensor leaf is viewed as `(*shape, *tensor.shape[batch_dims:])`; a nested
+  tensordict is squeezed one dim at a time at `dims` (the size-1 batch dims of the parent, last first), which keeps its dim names -/
+  | squeezeDims (dims : List Nat) (shape : Shape) (n : Nat)
   /-- `x.squeeze(newdim)` — _td.py:_squeeze -/
   | squeeze (d : Nat)
   /-- `tensor.unsqueeze(newdim)` — _td.py:_unsqueeze -/
@@ -147,7 +150,8 @@ def squeezeMeta (d : Option Int) (bs : Shape) (names : Names) :
   | none =>
     let bs' := bs.filter (· ≠ 1)
     let nm : Names := names.map (fun l => ((bs.zip l).filter (fun x => x.1 ≠ 1)).map (·.2))
-    if bs' = bs then .ok none else .ok (some (bs', nm, .view bs' bs.length))
+    if bs' = bs then .ok none
+    else .ok (some (bs', nm, .squeezeDims ((List.range bs.length).filter fun i => bs.getD i 0 = 1) bs' bs.length))
   | some d => do
     let nd ← maybeCorrectNegDim d bs.length
     if bs.getD nd 0 ≠ 1 then pure none
@@ -283,6 +287,7 @@ def applyLeaf {α : Type} (c : LeafCall) (t : T α) : Except Err (T α) :=
   | .transpose d0 d1 => Torch.transpose d0 d1 t
   | .view shape n => Torch.reshape (natsToInts (shape ++ t.shape.drop n)) t
   | .reshape shape n => Torch.reshape (natsToInts (shape ++ t.shape.drop n)) t
+  | .squeezeDims _ shape n => Torch.reshape (natsToInts (shape ++ t.shape.drop n)) t
   | .squeeze d => Torch.squeeze d t
   | .unsqueeze d => Torch.unsqueeze d t
   | .flatten a b => Torch.flatten a b t
@@ -299,6 +304,7 @@ def opOfCall (c : LeafCall) (bs : Shape) : Op :=
   | .transpose d0 d1 => .transpose d0 d1
   | .view shape n => .view (natsToInts (shape ++ bs.drop n))
   | .reshape shape n => .reshape (natsToInts (shape ++ bs.drop n))
+  | .squeezeDims _ shape n => .view (natsToInts (shape ++ bs.drop n))     -- (not used for nested tensordicts: see `applyEntry`)
   | .squeeze d => .squeeze (some d)
   | .unsqueeze d => .unsqueeze d
   | .flatten a b => .flatten a b
@@ -306,6 +312,10 @@ def opOfCall (c : LeafCall) (bs : Shape) : Op :=
   | .expand shape n =>
     let last := bs.length - n
     .expand (natsToInts (if last > 0 then shape ++ bs.drop (bs.length - last) else shape))
+
+/-- the list without the positions in `ds` -/
+def eraseDims {β : Type} (l : List β) (ds : List Nat) : List β :=
+  (l.zipIdx.filter fun p => !ds.contains p.2).map (·.1)
 
 /-- `unflatten` assigns names through the public setter after building the result
 (_td.py: names.setter): all-`None` → erased; duplicates / wrong length → ValueError -/
@@ -342,7 +352,15 @@ def mapEntries {α : Type} (call : LeafCall) : List (String × TD α) → Except
 
 def applyEntry {α : Type} (call : LeafCall) : TD α → Except Err (TD α)
   | .leaf t => (applyLeaf call t).map .leaf
-  | .node bs names es => tdNode (opOfCall call bs) bs names es
+  | .node bs names es =>
+    match call with
+    | .squeezeDims ds _ _ => do
+      -- `for d in reversed(squeezed_dims): tensor = tensor.squeeze(d)`: every squeezed dim is a size-1 batch dim of the nested
+      -- tensordict too (prefix invariant), so the chain erases exactly those dims from its batch size and names, entry by entry
+      let bs' := eraseDims bs ds
+      let es' ← mapEntries (.squeezeDims ds bs' bs.length) es
+      pure (.node bs' (normNames (names.map fun l => if l.isEmpty then l else eraseDims l ds)) es')
+    | _ => tdNode (opOfCall call bs) bs names es
 end
 
 /-- the key structure of a tensordict (insertion-ordered, all depths) -/
@@ -764,6 +782,21 @@ def mselEntry {α : Type} (mask : T Bool) : TD α → Except Err (TD α)
   | .node bs2 nm2 es2 => if bs2.take mask.shape.length ≠ mask.shape then .error .index else mselNode mask bs2 nm2 es2
 termination_by e => (sizeOf e, 0)
 end
+
+
+/-! ### predicates for the whole-tree statements about several operands (torch.cat) -/
+
+/-- operands (entries) together with their batch sizes: every operand is coherent -/
+def OpsOK {α : Type} (obs : List Shape) (others : List (List (String × TD α))) : Prop :=
+  obs.length = others.length ∧ ∀ p ∈ others.zip obs, CoherentList p.2 p.1
+
+/-- the values found for one key in the operands, with the operands' batch sizes -/
+def ValsOK {α : Type} (dim : Nat) (obs : List Shape) (vals : List (TD α)) : Prop :=
+  obs.length = vals.length ∧ ∀ p ∈ vals.zip obs, dim < p.2.length ∧ PrefixOK p.2 p.1 ∧ Coherent p.1
+
+def nodeView {α : Type} : TD α → Option (Shape × List (String × TD α))
+  | .node b _ es => some (b, es)
+  | .leaf _ => none
 
 
 end TdVerif.C02
